@@ -44,7 +44,7 @@ var connectPath = fnIn("Client.Client", "newRPCClient", "NewRPCClient", "newGRPC
 
 func init() {
 	register(&propDef{ID: "C01",
-		Rules: []func(*Ctx){ruleTranslate,
+		Rules: []func(*Ctx){ruleStdoutLines, ruleErrL3, ruleTranslate,
 			scoped(ruleErrL1Scoped, startPath), scoped(ruleErrL2Scoped, startPath),
 			ruleIdx, ruleNilGuard, ruleGate, ruleHandshakeTable,
 			scoped(ruleBoundScoped, fnIn("Client.Start")), ruleOrderStart,
@@ -55,14 +55,16 @@ func init() {
 		Assume:      []string{"net.ResolveTCPAddr/ResolveUnixAddr return a non-nil address iff the error is nil", "strings.Split with a non-empty separator returns at least one element"},
 	})
 	register(&propDef{ID: "C02",
-		Rules:       []func(*Ctx){ruleVersionNegotiation, ruleEnvVersionsOnly},
+		Rules: []func(*Ctx){ruleVersionNegotiation, ruleVersionListParse, ruleEnvVersionsOnly, onlyObligations(ruleEnv, func(o *Obligation) bool {
+			return o.Rule == "R-ORDER/O5" || (o.Rule == "R-TABLE/env" && strings.Contains(o.Construct, "PLUGIN_PROTOCOL_VERSIONS"))
+		})},
 		Technique:   "typestate (sorted-descending) and loop-shape analysis of the negotiation function; map-key/value pairing by object identity; table agreement offered=accepted",
 		Explanation: "Decides for the algorithm in the tree: the list ranged by the outer loop that contains the match return is sorted descending at the loop head; the match is an == between the two loop variables; the returned version, plugin set and protocol are those of the matched key; the fallback return is reachable only after the loop (lowest); legacy fields are folded into the map before it is ranged on both sides; the client accepts only a key of the map it offered and stores the set of the same key; the offered list is exactly the map's keys.",
 		NotDecided:  "the arithmetic fact that the first match in a descending list is the maximum of the intersection (taken as the algorithm's contract); a different negotiation algorithm is reported as undecided rather than verified.",
 		Assume:      []string{"sort.Sort(sort.Reverse(sort.IntSlice(x))) leaves x in descending order"},
 	})
 	register(&propDef{ID: "C03",
-		Rules: []func(*Ctx){ruleClientCache, ruleStreamClose,
+		Rules: []func(*Ctx){ruleErrL3, ruleClientCache, ruleStreamClose,
 			ruleExit, ruleCtx, ruleBound, ruleWG,
 			scoped(ruleErrL1Scoped, connectPath), scoped(ruleErrL2Scoped, connectPath),
 		},
@@ -72,7 +74,7 @@ func init() {
 		Assume:      []string{"yamux with default config (keep-alive on) fails a session whose peer is gone", "grpc-go fails RPCs on a closed connection"},
 	})
 	register(&propDef{ID: "C04",
-		Rules: []func(*Ctx){ruleKillCtx, ruleOrderO4,
+		Rules: []func(*Ctx){ruleRunnerKill, ruleKillCtx, ruleOrderO4,
 			ruleKill, ruleBoundRPC, scoped(ruleBoundScoped, fnIn("Client.Kill", "CleanupClients")), ruleSibClose, ruleWG,
 			guardOn("Client.", "managedClients", "RPCServer.DoneCh", "GRPCServer.broker"), ruleClose1,
 		},
@@ -91,7 +93,7 @@ func init() {
 		Assume:      []string{"deferred functions run on every return and on panic"},
 	})
 	register(&propDef{ID: "C06",
-		Rules: []func(*Ctx){ruleGetOrCreate, ruleExpiry, ruleRunNonBlocking, ruleFreshMsg,
+		Rules: []func(*Ctx){ruleDeadline, ruleGetOrCreate, ruleExpiry, ruleRunNonBlocking, ruleFreshMsg,
 			ruleIDMux, ruleSlot, guardOn("MuxBroker."), scoped(ruleBoundScoped, fnIn("MuxBroker.Accept", "MuxBroker.timeoutWait", "MuxBroker.Run", "MuxBroker.Dial")), ruleAtomicIDs,
 		},
 		Technique:   "origin (def-use) resolution of the brokered id on both ends, channel-capacity check, lockset on the pending map, timer-arm classification",
@@ -100,7 +102,7 @@ func init() {
 		Assume:      []string{"yamux delivers each stream's bytes in order to its peer only"},
 	})
 	register(&propDef{ID: "C07",
-		Rules: []func(*Ctx){ruleGetOrCreate, ruleExpiry, ruleRunNonBlocking, ruleFreshMsg, ruleTranslate, ruleCtorStoresTLS,
+		Rules: []func(*Ctx){ruleIDRoles, ruleDeadline, ruleGetOrCreate, ruleExpiry, ruleRunNonBlocking, ruleFreshMsg, ruleTranslate, ruleCtorStoresTLS,
 			ruleIDGRPC, ruleSlot, guardOn("GRPCBroker."), scoped(ruleErrL1Scoped, fnIn("GRPCBroker.DialWithOptions", "GRPCBroker.Accept", "GRPCBroker.AcceptAndServe")),
 			scoped(ruleErrL2Scoped, fnIn("GRPCBroker.DialWithOptions", "GRPCBroker.Accept")), scoped(ruleBoundScoped, fnIn("GRPCBroker.DialWithOptions", "GRPCBroker.timeoutWait", "GRPCBroker.Run")),
 			ruleTLSUse, ruleAtomicIDs,
@@ -110,7 +112,7 @@ func init() {
 		NotDecided:  "routing under all interleavings; that grpc-go connects to the address it was given.",
 	})
 	register(&propDef{ID: "C08",
-		Rules: []func(*Ctx){ruleLockPair, ruleGetOrCreate,
+		Rules: []func(*Ctx){ruleIDRoles, ruleDeadline, ruleLockPair, ruleGetOrCreate,
 			ruleOrderO8, ruleMuxSer, ruleSlot, ruleIDKnock, guardOn("grpcmux.", "GRPCBroker.serverStreams", "GRPCBroker.clientStreams"),
 		},
 		Technique:   "dominance query (listener registration before knock goroutine), must-held lockset for the serialised dial, channel-capacity check, id origin resolution",
@@ -127,27 +129,27 @@ func init() {
 		NotDecided:  "the expiry-instant race as a timing fact (its harmful effect, a blocking receive under the lock, is what R-LOCKBLOCK excludes); goroutine termination after Close.",
 	})
 	register(&propDef{ID: "C10",
-		Rules:       []func(*Ctx){ruleStderrNewline, rulePanicFlag, ruleAssert, ruleDrain, ruleOrderO4, ruleLogLevels},
+		Rules:       []func(*Ctx){ruleStdioSequential, ruleStdoutLines, ruleStderrNewline, rulePanicFlag, ruleAssert, ruleDrain, ruleOrderO4, ruleLogLevels, onlyObligations(ruleWG, func(o *Obligation) bool { return strings.Contains(o.Construct, "pipe") })},
 		Technique:   "call-graph reachability from the reader goroutines + type-assertion form check; loop-exit analysis against a reader effect table; case-to-method table agreement",
 		Explanation: "Decides: no single-result type assertion is reachable from the stdout/stderr reader goroutines (R-ASSERT); the stderr loop ends only on a non-nil read error and every successfully read chunk passes config.Stderr.Write(line) before the next read; the stdout scanner's early stop (ErrTooLong) is followed by a drain of the same reader (R-DRAIN); the drain goroutine for the line channel is registered right after its producer (O4); each [LEVEL] prefix and hclog level is logged with the method of the same name, panic: with Error, default Debug or Error inside a panic trace (R-TABLE/levels).",
 		NotDecided:  "newline/continuation reconstruction for every buffer size (value-level); hclog's own formatting.",
 		Assume:      []string{"bufio.Reader.ReadLine returns a non-nil error only at EOF or read failure", "bufio.Scanner stops with ErrTooLong at a 64 KiB token"},
 	})
 	register(&propDef{ID: "C11",
-		Rules:       []func(*Ctx){ruleCtx, ruleStdioWiring, ruleFresh, ruleCopyChan},
+		Rules:       []func(*Ctx){ruleStdioSequential, ruleDeadline, ruleCtx, ruleStdioWiring, ruleFresh, ruleCopyChan},
 		Technique:   "label propagation (stdout/stderr) over resolved fields, parameters and constants; allocation-site-in-loop check; statement ordering in the chunk loop",
 		Explanation: "Decides the wiring and aliasing conditions: every edge of the stdio path joins equal labels (os.Pipe pair -> os.Stdout/os.Stderr and the server's Stdout/Stderr fields -> stdoutCh/stderrCh -> STDOUT/STDERR tags -> host stdout/stderr writers <- SyncStdout/SyncStderr; net/rpc stream 0/1 on both ends) (R-TABLE/stdio); the chunk sent on the channel is backed by an array declared inside the loop body, so a later read cannot overwrite bytes in flight (R-FRESH); data[:n] is sent before the error of the same read is acted on and the hand-off is an unconditional blocking send (O10).",
 		NotDecided:  "byte-exactness and ordering themselves (gRPC stream, yamux and io.Copy contracts); data written before the host attaches.",
 	})
 	register(&propDef{ID: "C12",
-		Rules:       []func(*Ctx){ruleCtorStoresTLS, ruleTLSConfig, ruleTLSPools, ruleTLSUse, ruleCertGen, ruleEnvCertOnly, scoped(ruleErrL2Scoped, fnIn("Client.Start", "Client.loadServerCert")), scoped(ruleErrL1Scoped, fnIn("Client.loadServerCert"))},
+		Rules:       []func(*Ctx){ruleCtorStoresTLS, ruleTLSConfig, ruleTLSPools, ruleTLSUse, ruleCertGen, ruleAutoMTLSGate, ruleEnvCertOnly, scoped(ruleErrL2Scoped, fnIn("Client.Start", "Client.loadServerCert")), scoped(ruleErrL1Scoped, fnIn("Client.loadServerCert"))},
 		Technique:   "composite-literal and field-store audit of every tls.Config in scope; origin resolution of certificate pools; provenance of TLS options at every listener/dial constructor call site",
 		Explanation: "Decides what go-plugin itself contributes to mutual authentication: both tls.Config literals require and verify client certificates, set MinVersion >= TLS 1.2, carry the freshly generated pair and no verification bypass, and no store weakens them (R-TLS/config); RootCAs and ClientCAs are, on both sides, a fresh pool that received exactly the peer's handshake certificate (R-TLS/pools); every gRPC server factory call, dialGRPCConn call and broker construction passes the owner's TLS config, the insecure dial option is dominated by tls == nil, and the net/rpc listener/conn are wrapped under a non-nil config (R-TLS/use); the two certificates travel in PLUGIN_CLIENT_CERT and handshake field 6; a certificate that cannot be parsed or pinned fails the start (R-ERR on Start/loadServerCert). The credential generator draws key and certificate from crypto/rand.Reader, self-signs with the generated key over its public half, and returns that same key (R-TLS/certgen).",
 		NotDecided:  "that crypto/tls enforces what is configured.",
 		Assume:      []string{"crypto/tls with ClientAuth=RequireAndVerifyClientCert and a single-certificate pool accepts only that certificate's key"},
 	})
 	register(&propDef{ID: "C13",
-		Rules:       []func(*Ctx){ruleSecureOrder, ruleCmp, ruleSentinelSecure, scoped(ruleErrL1Scoped, fnIn("SecureConfig.Check")), scoped(ruleErrL2Scoped, fnIn("SecureConfig.Check"))},
+		Rules:       []func(*Ctx){ruleCmdPathImmutable, ruleSecureOrder, ruleCmp, ruleSentinelSecure, scoped(ruleErrL1Scoped, fnIn("SecureConfig.Check")), scoped(ruleErrL2Scoped, fnIn("SecureConfig.Check"))},
 		Technique:   "dominance of every launch site by the checksum gate; origin resolution of the compared operands; sentinel-return check",
 		Explanation: "Decides: SecureConfig.Check(cmd.Path) with both results tested dominates every launch site in Start (O1, G-sum); the boolean returned by Check is subtle.ConstantTimeCompare (or bytes.Equal) of the un-sliced Hash.Sum(nil) after io.Copy(Hash, file) of the file opened from the path parameter against the un-sliced Checksum (R-CMP); the empty-checksum and nil-hash guards return their sentinels before the file is opened, a mismatch returns ErrChecksumsDoNotMatch (R-SENT).",
 		NotDecided:  "hash function behaviour; replacement of the file between check and exec (documented upstream).",
@@ -160,13 +162,13 @@ func init() {
 		NotDecided:  "the end-to-end behaviour of each cell of the configuration matrix.",
 	})
 	register(&propDef{ID: "C15",
-		Rules:       []func(*Ctx){ruleReattach, ruleSentinelReattach, ruleExit, ruleGateExcl},
+		Rules:       []func(*Ctx){ruleRunnerKill, ruleReattach, ruleSentinelReattach, ruleExit, ruleGateExcl},
 		Technique:   "dominance (runner recorded only outside test mode), field-provenance of address/protocol, sentinel-return check, exit bookkeeping",
 		Explanation: "Decides: in reattach the store to Client.runner is dominated by the false edge of Reattach.Test; address and protocol come from the ReattachConfig with net/rpc as default; Client.ReattachConfig() and the test-mode literal in Serve fill Protocol, Addr, Pid, Test from the negotiated protocol, the listener address, the pid and true; both failure paths of the reattach probe return ErrProcessNotFound; the reattach goroutine cancels the context and marks exit.",
 		NotDecided:  "that the address reaches the same plugin instance (a run-time value).",
 	})
 	register(&propDef{ID: "C16",
-		Rules:       []func(*Ctx){ruleCookie, ruleOrderServe, ruleHandshakeTable, ruleStdout},
+		Rules:       []func(*Ctx){ruleServeServes, ruleCookie, ruleOrderServe, ruleHandshakeTable, ruleStdout},
 		Technique:   "dominance of listener/print sites by the cookie gate, statement ordering in Serve, format-string/argument table extraction, who-may-write audit of os.Stdout",
 		Explanation: "Decides: the empty key/value test and the exact != comparison of os.Getenv(key) with the value set exit code 1 and return before any listen or print site, and the deferred os.Exit reads that variable (G-cookie); the listener and server.Init precede the handshake print, print and Sync precede the os.Stdout swap (O6); the line is Sprintf(\"%d|%d|%s|%s|%s|%s\") of core version, negotiated version, listener network/address, protocol and certificate, with a seventh field only under os.Getenv(PLUGIN_MULTIPLEX_GRPC) != \"\" (R-TABLE/handshake); the only write to the real stdout in scope is that print (R-STDOUT).",
 		NotDecided:  "the exit status as observed by the OS; that a listening socket queues connections before Accept (kernel contract).",
@@ -191,7 +193,7 @@ func init() {
 		NotDecided:  "pointer equality of returned values across calls (follows from the cache structure but is a run-time fact).",
 	})
 	register(&propDef{ID: "C20",
-		Rules:       []func(*Ctx){ruleLockPair, ruleLockOrder, ruleGetOrCreate, ruleGuard, ruleClose1, ruleLockBlock, ruleNilGuard, ruleAssert},
+		Rules:       []func(*Ctx){ruleFresh, ruleErrL3, ruleLockPair, ruleLockOrder, ruleGetOrCreate, ruleGuard, ruleClose1, ruleLockBlock, ruleNilGuard, ruleAssert},
 		Technique:   "lockset analysis with inferred guards and caller summaries, field-write discipline, atomic-only id counters, close-once classification",
 		Explanation: "Decides: every access to a shared field named by the property's anchors holds the mutex inferred as its guard, in its own lock region or in all callers (reviewed happens-before exceptions for reads only); every other struct-field write outside constructors is under a mutex, inside sync.Once.Do or in the reviewed table; the id counters are touched only through sync/atomic; every close() is inside Once.Do, nil-test-and-clear under a mutex, a local single owner, or a reviewed shared close (R-CLOSE1); no blocking under a mutex; no unguarded optional-pointer dereference; no panicking assertion on plugin data.",
 		NotDecided:  "races the lockset abstraction cannot express (happens-before through channels beyond the tabled exceptions), races inside dependencies, uniqueness of ids beyond 'atomic add, no other writer'.",
